@@ -6,6 +6,7 @@
      cuts   : Seq(Nat)                  byte offsets of every section boundary (header end, each blob start/end)
      total  : Nat                       file size in bytes
      texts  : Seq([lo, hi])             absolute byte ranges of the text blobs (trees, windows) for byte flips
+     refs   : Seq(Nat)                  byte offsets of the digit of some child references "-d" in tree texts (real files; <<>> otherwise)
      toks   : Seq(tok)                  the data tokens (rendered documents only; <<>> for a real file)
    A fault is a record [op |-> ..]; the harness applies a list of faults to the base in order:
      set{line,val}  replace the value of header line `line`;  del{line};  dup{line};  nonutf8{line};  mbchar{line,at,w};  key{line,how}
@@ -69,9 +70,12 @@ FlipChars == <<"{", "}", "\"", " ", "\n", "Z", "9", "-", "*", "[", "x80", "xFF">
 FlipPoints(b, G) == UNION { {b.texts[t].lo, b.texts[t].hi} \cup ({b.texts[t].lo + 3, b.texts[t].lo + 5} \cap b.texts[t].lo..b.texts[t].hi) \cup
                             { b.texts[t].lo + (g * (b.texts[t].hi - b.texts[t].lo)) \div (G + 1) : g \in 1..G } : t \in 1..Len(b.texts) }
 FlipFaults(b, G) == {[op |-> "flip", at |-> p, ch |-> FlipChars[c]] : p \in FlipPoints(b, G), c \in 1..Len(FlipChars)}
+\* child references of tree nodes (real files: offsets of the digit of a reference to node -1 .. -9, exported by the tokenizer):
+\* "0" written over the digit makes the child the root - every reference still resolves, but the "tree" now contains a cycle
+RefFaults(b) == {[op |-> "flip", at |-> b.refs[i], ch |-> "0"] : i \in 1..Len(b.refs)}
 U32Idx(b) == {i \in 1..Len(b.toks) : b.toks[i].t = "u32"}
 TokFaults(b) == {[op |-> "toku32", i |-> i, v |-> v] : i \in U32Idx(b), v \in {0, 7, 2147483647}}
                 \cup {[op |-> "tokdel", i |-> i] : i \in {i \in 1..Len(b.toks) : i <= 3 \/ i >= Len(b.toks) - 1 \/ b.toks[i].t = "txt"}}
 Singles(b, G) == SetFaults(b) \cup DelFaults(b) \cup DupFaults(b) \cup Utf8Faults(b) \cup MbFaults(b) \cup KeyFaults(b) \cup SwapFaults(b)
-                 \cup CutFaults(b) \cup FlipFaults(b, G) \cup TokFaults(b)
+                 \cup CutFaults(b) \cup FlipFaults(b, G) \cup RefFaults(b) \cup TokFaults(b)
 =============================================================================
